@@ -83,6 +83,7 @@ P = Path()
 
 # what the worker sets before analysing / replaying
 MODE = "check"  # "check" | "twin" | "replay"
+SURVEY = bool(__import__("os").environ.get("VERIF_SURVEY"))  # triage aid: collect every failing signature
 ACTIVE_PROP = ""  # property whose clauses count on this run ("" = all)
 SHARD: dict[str, typing.Any] = {}
 KNOWN: dict[str, set[str]] = {}  # property -> set of known signatures
@@ -174,7 +175,7 @@ def harness(
             # classify failures against the known-findings list
             live = []
             for clause, sig in P.failures:
-                if _signature_known(ACTIVE_PROP or prop, name, sig):
+                if SURVEY or _signature_known(ACTIVE_PROP or prop, name, sig):
                     P.known_hits.append((clause, sig))
                 else:
                     live.append((clause, sig))
